@@ -437,14 +437,29 @@ func runC09(c *Ctx) {
 		// the sorting column orders them, which needs the null counts / null
 		// pages of the column index and the column's NullsFirst()
 		nullInfo, nullSide := false, false
-		allCalls(fn, true, func(_ *ssa.Function, call ssa.CallInstruction) {
-			switch calleeName(call) {
-			case "(ColumnIndex).NullCount":
-				nullInfo = true
-			case "(SortingColumn).NullsFirst":
-				nullSide = true
+		{
+			// in the function or in the helpers of the package it hands the column index to
+			seenFns := map[*ssa.Function]bool{}
+			var look func(f *ssa.Function, depth int)
+			look = func(f *ssa.Function, depth int) {
+				if f == nil || f.Blocks == nil || seenFns[f] || depth > 2 {
+					return
+				}
+				seenFns[f] = true
+				allCalls(f, true, func(_ *ssa.Function, call ssa.CallInstruction) {
+					switch calleeName(call) {
+					case "(ColumnIndex).NullCount":
+						nullInfo = true
+					case "(SortingColumn).NullsFirst":
+						nullSide = true
+					}
+					if sc := call.Common().StaticCallee(); sc != nil && fnPkgPath(sc) == modPath && sc.Signature.Recv() == nil {
+						look(sc, depth+1)
+					}
+				})
 			}
-		})
+			look(fn, 0)
+		}
 		// the column index describes the rows only for row groups whose chunks are
 		// their rows: the marker is consulted before any column index is read
 		var markerCall ssa.Instruction
